@@ -98,6 +98,7 @@ def strategy_case(draw):
         case["R"] = draw(gen.ranks(d, 4))
         case["perm"] = list(draw(st.permutations(list(range(d)))))
         case["as_tuple"] = draw(st.booleans())
+        case["argform"] = draw(gen.int_form(("neg", "np")))
     elif op in ("to_qtt", "qtt_roundtrip"):
         ms = draw(st.sampled_from([2, 2, 4]))
         sizes = (1, 2, 4, 8, 16, 32) if ms == 2 else (1, 4, 16, 64)
@@ -184,7 +185,17 @@ def execute(case):
     if op in ("reshape", "reshape_ttm"):
         if op == "reshape":
             target = list(case["target"])
-            res = lib(lambda: T.reshape(x, list(target), **kw()))
+            sform = ["plain", "plain", "plain", "tuple", "np"][case["seed"] % 5]
+            if sform != "plain":
+                ck.label("argform:" + sform)
+                t2 = tuple(target) if sform == "tuple" else [np.int64(t) for t in target]
+                try:
+                    res = lib(lambda: T.reshape(x, t2, **kw()))
+                except core.LibraryException:
+                    ck.label("argform_rejected")
+                    return ck.verdict()
+            else:
+                res = lib(lambda: T.reshape(x, list(target), **kw()))
             ref = xd.reshape(target)
             tM, tN = None, target
         else:
@@ -210,7 +221,19 @@ def execute(case):
     if op in ("permute", "permute_ttm"):
         perm = case["perm"]
         arg = tuple(perm) if case["as_tuple"] else list(perm)
-        res = lib(lambda: T.permute(x, arg, **kw()))
+        aform = case.get("argform", "plain")
+        if aform != "plain":
+            # torch-style negative / numpy-integer dims: accept-or-correct (see gen.apply_int_form)
+            ck.label("argform:" + aform)
+            a2 = gen.apply_int_form(perm, aform, d)
+            a2 = tuple(a2) if case["as_tuple"] else a2
+            try:
+                res = lib(lambda: T.permute(x, a2, **kw()))
+            except core.LibraryException:
+                ck.label("argform_rejected")
+                return ck.verdict()
+        else:
+            res = lib(lambda: T.permute(x, arg, **kw()))
         if M:
             ref = xd.permute(perm + [p + d for p in perm])
             tM, tN = [M[p] for p in perm], [N[p] for p in perm]
